@@ -9,10 +9,13 @@ its oracle list: schedule, objective and status must be equal and every recorded
 Independently, (a) a Python oracle written from the property text and (b) the Coq boolean `spec_check`
 (proved sound w.r.t. js_spec in C18/JobShopSpec.v) judge the implementation's outputs.
 """
+import collections.abc
 import json
 import random as _random
 
 from harness.core import COQ, VERIF, Ctx, cbool, clist, cnat, copt, cz, guarded, pmap
+from harness.props import jobshop_events as EV
+from harness.props import jobshop_families as FAM
 
 ID = "C18"
 ANCHORS = ["solvor/job_shop.py", "solvor/vrp.py", "solvor/lns.py"]
@@ -95,7 +98,62 @@ FIXED = [
 
 
 # ---------------------------------------------------------------- implementation run (records the RNG answers)
-def run_impl(case):
+class Seq(collections.abc.Sequence):
+    """a Sequence that is neither a list nor a tuple (the signature says Sequence[Job], Job = Sequence[Operation])"""
+
+    def __init__(self, xs):
+        self._xs = list(xs)
+
+    def __getitem__(self, i):
+        return self._xs[i]
+
+    def __len__(self):
+        return len(self._xs)
+
+
+_BIG = 10**6
+
+
+def build_jobs(case):
+    """The jobs argument as the case's call-shape keys say (see jobshop_families.py); the model sees case['jobs']."""
+    shape = case.get("shape", "list_tuple")
+    fresh, boo, fl, half = case.get("fresh_ints"), case.get("bool_labels"), case.get("float_durs"), case.get("half")
+
+    def mk(x, dur):
+        if dur and half:
+            return x / 2
+        if dur and fl:
+            return float(x)
+        if boo and x in (0, 1):
+            return bool(x)
+        return (x + _BIG) - _BIG if fresh else x     # arithmetic at call time: a new int object when outside the small-int cache
+
+    def ops(j, job):
+        sh = ("list_tuple", "list_list", "tuple_tuple", "seq")[j % 4] if shape == "mixed" else shape
+        items = [([mk(o[0], False), mk(o[1], True)] if sh == "list_list" else (mk(o[0], False), mk(o[1], True))) for o in job]
+        return tuple(items) if sh == "tuple_tuple" else Seq(items) if sh == "seq" else items
+
+    jobs = [ops(j, job) for j, job in enumerate(case["jobs"])]
+    return tuple(jobs) if shape == "tuple_tuple" else Seq(jobs) if shape == "seq" else jobs
+
+
+def snapshot(jobs):
+    """value + type of everything reachable from the jobs argument (to detect that the callee modified its input)"""
+    return [(type(job).__name__, [(type(o).__name__, type(o[0]).__name__, o[0], type(o[1]).__name__, o[1]) for o in job]) for job in jobs]
+
+
+def call_kwargs(case):
+    omit = case.get("omit") or ()
+    kw = {k: case[k] for k in ("rule", "local_search", "max_iter", "seed") if k not in omit}
+    if case.get("cb_k") is not None:
+        k = case["cb_k"]
+        kw["on_progress"] = lambda p: p.iteration >= k
+        kw["progress_interval"] = case["interval"]
+    return kw
+
+
+def call_impl(jobs, kw):
+    """one guarded call with Random recorded -> output dict"""
     import solvor.job_shop as js
 
     draws = []
@@ -106,21 +164,15 @@ def run_impl(case):
             draws.append(list(seq).index(r))
             return r
 
-        def randrange(self, *a, **kw):
-            r = super().randrange(*a, **kw)
+        def randrange(self, *a, **k):
+            r = super().randrange(*a, **k)
             draws.append(int(r))
             return r
 
-    kw = dict(rule=case["rule"], local_search=case["local_search"], max_iter=case["max_iter"], seed=case["seed"])
-    if case.get("cb_k") is not None:
-        k = case["cb_k"]
-        kw["on_progress"] = lambda p: p.iteration >= k
-        kw["progress_interval"] = case["interval"]
-    jobs = [[tuple(o) for o in job] for job in case["jobs"]]
     orig = js.Random
     js.Random = RecRandom
     try:
-        res = guarded(js.solve_job_shop, jobs, timeout=20, **kw)  # worst generated case runs < 1 s; 20 s = a real hang, also under load
+        res = guarded(js.solve_job_shop, jobs, timeout=20, **kw)  # worst generated case runs < 2 s; 20 s = a real hang, also under load
     finally:
         js.Random = orig
     if res[0] == "ok":
@@ -133,10 +185,24 @@ def run_impl(case):
         except Exception as e:  # noqa: BLE001
             return {"kind": "bad", "what": f"malformed schedule: {e}", "draws": draws}
         return {"kind": "ok", "schedule": items, "objective": _num(r.objective), "status": r.status.name,
-                "iterations": r.iterations, "draws": draws}
+                "iterations": r.iterations, "draws": draws, "_result": r}
     if res[0] == "exc":
         return {"kind": "exc", "type": res[1], "msg": res[2], "draws": draws}
     return {"kind": "hang", "draws": draws}
+
+
+def run_impl(case):
+    jobs = build_jobs(case)
+    before = snapshot(jobs)
+    out = call_impl(jobs, call_kwargs(case))
+    out.pop("_result", None)
+    if snapshot(jobs) != before:
+        return {"kind": "bad", "what": "solve_job_shop modified its jobs argument", "draws": out["draws"]}
+    if case.get("half") and out["kind"] == "ok":
+        # dyadic call: double the times back (exact in binary floating point) so that the integer case judges them
+        out["schedule"] = [[j, k, _num(s * 2), _num(e * 2)] for j, k, s, e in out["schedule"]]
+        out["objective"] = _num(out["objective"] * 2)
+    return out
 
 
 def _num(x):
@@ -148,14 +214,23 @@ def _num(x):
 
 
 def run_pair(case):
-    """Implementation output + (for the histogram) the objective of the same call without local search."""
+    """Implementation output + (for the histogram) the objective of the same call without local search, + for a scaled case the
+    verdict of the metamorphic relation with its base case."""
     out = run_impl(case)
     base = None
-    if out["kind"] == "ok" and case["local_search"]:
-        b = run_impl({**case, "local_search": False, "cb_k": None})
+    if out["kind"] == "ok" and case["local_search"] and case.get("seed") is not None and not case.get("nocoq"):
+        b = run_impl({**case, "local_search": False, "cb_k": None, "omit": [k for k in (case.get("omit") or ()) if k != "local_search"]})
         if b["kind"] == "ok":
             base = b["objective"]
-    return out, base
+    meta = None
+    if case.get("scale") and out["kind"] == "ok":
+        k, bo = case["scale"], run_impl(case["base"])
+        if bo["kind"] != "ok":
+            meta = f"base case fails ({bo.get('type') or bo['kind']}) although the case scaled by {k} succeeds"
+        elif [[j, o, s * k, e * k] for j, o, s, e in bo["schedule"]] != out["schedule"]:
+            meta = (f"scaling every duration by {k} does not scale the schedule: base {bo['schedule']} objective {bo['objective']}, "
+                    f"scaled {out['schedule']}")
+    return out, base, meta
 
 
 # ---------------------------------------------------------------- independent oracle (the property text)
@@ -190,9 +265,9 @@ def oracle(case, out):
     missing = sorted(set(ops) - set(sched))
     extra = sorted(set(sched) - set(ops))
     if missing:
-        return f"operations without start/end: {missing}"
+        return f"operations without start/end: {missing[:10]}"
     if extra:
-        return f"schedule has entries for non-existing operations: {extra}"
+        return f"schedule has entries for non-existing operations: {extra[:10]}"
     for key, (s, e) in sched.items():
         if not (isinstance(s, int) and isinstance(e, int)):
             return f"operation {key}: non-integral times {(s, e)} on integer data"
@@ -202,26 +277,55 @@ def oracle(case, out):
         for k in range(len(job) - 1):
             if sched[(j, k + 1)][0] < sched[(j, k)][1]:
                 return f"job {j}: operation {k + 1} starts at {sched[(j, k + 1)][0]} before operation {k} ends at {sched[(j, k)][1]}"
-    keys = sorted(ops)
-    for a in range(len(keys)):
-        for b in range(a + 1, len(keys)):
-            if ops[keys[a]][0] != ops[keys[b]][0]:
-                continue
-            s1, e1 = sched[keys[a]]
-            s2, e2 = sched[keys[b]]
-            if max(s1, s2) < min(e1, e2):
-                return f"machine {ops[keys[a]][0]}: operations {keys[a]} {(s1, e1)} and {keys[b]} {(s2, e2)} overlap"
+    by_machine = {}
+    for key in sorted(ops):
+        by_machine.setdefault(ops[key][0], []).append(key)
+    for m, keys in by_machine.items():
+        if len(keys) <= 64:
+            # the definition: no two operations with intersecting OPEN intervals
+            for a in range(len(keys)):
+                for b in range(a + 1, len(keys)):
+                    s1, e1 = sched[keys[a]]
+                    s2, e2 = sched[keys[b]]
+                    if max(s1, s2) < min(e1, e2):
+                        return f"machine {m}: operations {keys[a]} {(s1, e1)} and {keys[b]} {(s2, e2)} overlap"
+        else:
+            # same condition for many operations: an empty open interval meets nothing; non-empty ones, sorted by start, are pairwise
+            # disjoint iff each ends before the next starts
+            pos = sorted((sched[key], key) for key in keys if sched[key][0] < sched[key][1])
+            for (iv1, k1), (iv2, k2) in zip(pos, pos[1:]):
+                if iv2[0] < iv1[1]:
+                    return f"machine {m}: operations {k1} {iv1} and {k2} {iv2} overlap"
     latest = max((e for _, e in sched.values()), default=0)
     if out["objective"] != latest:
-        return f"objective {out['objective']} but the latest end time is {latest}"
+        # Result.objective is a float by the API: above 2^53 the latest end time need not be representable; then the objective must
+        # be the float nearest to it (float(int) rounds correctly)
+        if not (abs(latest) > 2**53 and isinstance(out["objective"], int) and float(out["objective"]) == float(latest)):
+            return f"objective {out['objective']} but the latest end time is {latest}"
     want = "FEASIBLE" if jobs else "OPTIMAL"
     if out["status"] != want:
         return f"status {out['status']}, expected {want}"
+    exp = case.get("expect") or {}
+    if "objective" in exp and latest != exp["objective"]:
+        return f"makespan {latest}, but by construction it is {exp['objective']}"
+    if "schedule" in exp and out["schedule"] != exp["schedule"]:
+        diff = [(a, b) for a, b in zip(out["schedule"], exp["schedule"]) if a != b][:3]
+        return f"schedule differs from the only valid left-shifted one: (returned, expected) {diff}"
     return None
+
+
+def canon_objective(out):
+    """the objective as an integer for the Coq side: the latest end time when the returned float is its correct rounding"""
+    latest = max((it[3] for it in out["schedule"]), default=0)
+    if isinstance(latest, int) and abs(latest) > 2**53 and isinstance(out["objective"], int) and float(out["objective"]) == float(latest):
+        return latest
+    return out["objective"]
 
 
 def shrink(case, still_bad):
     """Drop jobs / operations / options while the case still fails."""
+    if case.get("expect") or case.get("scale"):
+        return case      # tied to a by-construction answer / a base case
     cur = json.loads(json.dumps(case))
     changed = True
     while changed:
@@ -268,7 +372,7 @@ def c_obs(out):
             and all(it[0] >= 0 and it[1] >= 0 for it in out["schedule"]) \
             and isinstance(out["objective"], int) and out["status"] in ("OPTIMAL", "FEASIBLE")
         if ok:
-            return f"IOk {c_sched(out['schedule'])} {cz(out['objective'])} {'Optimal' if out['status'] == 'OPTIMAL' else 'Feasible'}"
+            return f"IOk {c_sched(out['schedule'])} {cz(canon_objective(out))} {'Optimal' if out['status'] == 'OPTIMAL' else 'Feasible'}"
         return "IOther"
     if out["kind"] == "exc" and out["type"] == "ValueError":
         return "IErrValue"
@@ -303,17 +407,75 @@ def _corpus():
     if d.exists():
         for f in sorted(d.glob("js_*.json")):
             o = json.loads(f.read_text())
-            out.append({k: o.get(k, dflt) for k, dflt in (("jobs", []), ("rule", "spt"), ("seed", 0), ("local_search", True),
-                                                          ("max_iter", 1000), ("cb_k", None), ("interval", 0))})
+            c = {k: o.get(k, dflt) for k, dflt in (("jobs", []), ("rule", "spt"), ("seed", 0), ("local_search", True),
+                                                   ("max_iter", 1000), ("cb_k", None), ("interval", 0))}
+            if o.get("event"):
+                c["event"] = o["event"]
+            out.append(c)
     return out
+
+
+# ---------------------------------------------------------------- aliasing / call sequences (class A)
+def run_alias(pair):
+    """a, b on ONE shared jobs object: a, b, a, b.  The caller's object must stay untouched, equal calls must give equal answers
+    whatever ran in between, and a returned schedule must not be the callee's private state (we clear the first answer)."""
+    a, b = pair
+    jobs = build_jobs(a)
+    before = snapshot(jobs)
+    outs, bad = [], None
+    for step, c in enumerate((a, b, a, b)):
+        o = call_impl(jobs, call_kwargs(c))
+        r = o.pop("_result", None)
+        outs.append(o)
+        if snapshot(jobs) != before and not bad:
+            bad = f"call {step + 1} of the sequence modified the shared jobs argument"
+        if step == 0 and r is not None and isinstance(r.solution, dict):
+            r.solution.clear()       # the caller owns the returned dict
+    strip = lambda o: {k: v for k, v in o.items() if k != "draws" or True}  # noqa: E731  (draws included: same seed, same answers)
+    if not bad and strip(outs[0]) != strip(outs[2]):
+        bad = f"the same call gives different answers before and after another call on the same jobs object: {outs[0]} vs {outs[2]}"
+    if not bad and strip(outs[1]) != strip(outs[3]):
+        bad = f"the same call gives different answers the second time: {outs[1]} vs {outs[3]}"
+    return outs[0], outs[1], bad
+
+
+# ---------------------------------------------------------------- event-directed search (class H), see jobshop_events.py
+def judge_event_case(case, ref):
+    """runs in the search workers on EVERY candidate: implementation + property oracle (+ agreement of the reference port)"""
+    out = run_impl(case)
+    bad = oracle(case, out)
+    if bad:
+        return {"bad": bad}
+    if "error" not in ref and out["kind"] == "ok":
+        rs = sorted([j, k, s, e] for (j, k), (s, e) in ref["schedule"].items())
+        if rs != out["schedule"] or ref["objective"] != out["objective"]:
+            return {"port": {"schedule": rs, "objective": ref["objective"]}, "impl": {k: v for k, v in out.items() if k != "draws"}}
+    return None
+
+
+def coq_affordable(case):
+    ops = sum(len(j) for j in case["jobs"])
+    top = max((o[0] for job in case["jobs"] for o in job), default=0)
+    return not case.get("nocoq") and ops <= 40 and top <= 320 and (case["max_iter"] <= 200 or ops <= 10)
 
 
 # ---------------------------------------------------------------- the check
 def run_js(ctx: Ctx):
     big = ctx.tier == "thorough"
-    cases = _corpus() + [json.loads(json.dumps(c)) for c in FIXED]
+    rng = ctx.rng
+    corpus = _corpus()
+    cases = corpus + [json.loads(json.dumps(c)) for c in FIXED]
     n_corpus = len(cases)
-    cases += [gen_case(ctx.rng, big) for _ in range(ctx.budget(700, 9000))]
+    cases += [gen_case(rng, big) for _ in range(ctx.budget(700, 9000))]
+    # round-2 families (jobshop_families.py): containers, labels, magnitudes, option corners and sweeps, sizes
+    for gen, q, t in ((FAM.gen_shapes, 40, 400), (FAM.gen_labels, 40, 400), (FAM.gen_scaled, 40, 400), (FAM.gen_mixed_magnitudes, 30, 300),
+                      (FAM.gen_float_durs, 40, 400), (FAM.gen_option_corner, 60, 600)):
+        cases += [gen(rng) for _ in range(ctx.budget(q, t))]
+    for _ in range(ctx.budget(3, 20)):
+        cases += FAM.gen_sweep(rng)
+    for _ in range(ctx.budget(1, 3)):
+        cases += FAM.gen_sized(rng, big)
+    alias_pairs = [FAM.gen_alias(rng) for _ in range(ctx.budget(40, 400))]
 
     # open known findings of this part: replay their witnesses first
     for f in ctx.open_findings():
@@ -324,15 +486,58 @@ def run_js(ctx: Ctx):
                 if bad:
                     ctx.known_hit(f["id"], f"witness still reproduces: {bad}")
 
+    def report(case, bad, out=None):
+        small = shrink(case, _fails) if len(ctx.violations) < 3 else case
+        sout = run_impl(small)
+        ctx.violation(f"solve_job_shop: {oracle(small, sout) or bad}",
+                      {"kind": "js", **small, "impl": {k: v for k, v in sout.items() if k != "draws"}})
+
+    # ---- class H: event-directed search; every candidate is judged in the workers
+    seeds = [c for c in corpus if c.get("event")]
+    found, verdicts, stats = EV.event_search(rng, ctx.budget(9000, 150000), judge=judge_event_case, seeds=seeds)
+    ctx.evaluations += stats["spent"]
+    ctx.count("js_family", "H:event-search candidates (oracle only)", stats["spent"])
+    port_disagree = []
+    for case, v in verdicts:
+        if "bad" in v:
+            if sum(1 for x in ctx.violations if not x["no_input"]) < 3:
+                report(case, v["bad"])
+        else:
+            port_disagree.append((case, v))
+    ctx.count("js_reference_port_agrees", "yes", stats["spent"] - len(port_disagree))
+    if port_disagree:
+        ctx.count("js_reference_port_agrees", "NO", len(port_disagree))
+    for e in EV.EVENTS:
+        ctx.count("js_event_sets_with", e, sum(1 for _, evs in found if e in evs))
+    ctx.extra["js_event_search"] = {"reference_runs": stats["spent"], "distinct_event_sets": stats["distinct_event_sets"],
+                                    "events_witnessed": sorted(stats["first_witness"]),
+                                    "events_not_witnessed": [e for e in EV.EVENTS if e not in stats["first_witness"]]}
+    # into the correspondence: a first witness of every event + a sample of the distinct event sets
+    ev_cases = [dict(c, family="H:event-witness") for c in stats["first_witness"].values()]
+    pick = list(found)
+    rng.shuffle(pick)
+    ev_cases += [dict(c, family="H:event-set") for c, _ in pick[:ctx.budget(300, 3000)]]
+    cases += ev_cases
+
     results = pmap(run_pair, cases)
+    alias_results = pmap(run_alias, alias_pairs)
+    for (a, b), (oa, ob, bad) in zip(alias_pairs, alias_results):
+        if bad:
+            ctx.violation(f"solve_job_shop call sequence: {bad}", {"kind": "js_alias", "a": a, "b": b})
+        cases += [a, b]
+        results += [(oa, None, None), (ob, None, None)]
+        ctx.evaluations += 2
+
     coq_cases, spec_cases, metas, spec_metas = [], [], [], []
-    for idx, (case, (out, base)) in enumerate(zip(cases, results)):
+    for idx, (case, (out, base, meta)) in enumerate(zip(cases, results)):
         ctx.evaluations += 1
         valid = input_valid(case)
+        n_ops = sum(len(j) for j in case["jobs"])
+        ctx.count("js_family", case.get("family", "corpus/fixed" if idx < n_corpus else "random"))
         ctx.count("js_rule", case["rule"].lower() if valid else "invalid-input")
-        ctx.count("js_n_jobs", len(case["jobs"]))
-        ctx.count("js_total_ops", sum(len(j) for j in case["jobs"]))
-        ctx.count("js_max_iter", case["max_iter"] if case["local_search"] else "no-local-search")
+        ctx.count("js_n_jobs", len(case["jobs"]) if len(case["jobs"]) <= 5 else ">5")
+        ctx.count("js_total_ops", n_ops if n_ops <= 16 else ">16")
+        ctx.count("js_max_iter", (case["max_iter"] if case["max_iter"] in (0, 1, 5, 30, 150, 1000) else "other") if case["local_search"] else "no-local-search")
         ctx.count("js_outcome", out.get("status") or out.get("type") or out["kind"])
         if out["kind"] == "ok" and base is not None:
             ctx.count("js_local_search_effect", "improved" if out["objective"] < base else ("same" if out["objective"] == base else "WORSE"))
@@ -342,17 +547,19 @@ def run_js(ctx: Ctx):
             full = out["iterations"] == case["max_iter"]
             ctx.count("js_loop_exit", "all passes" if full else ("call-back stop" if case.get("cb_k") is not None and case["interval"] > 0
                                                                  else "no_improve >= 100"))
-        bad = oracle(case, out)
+        if out["kind"] == "ok" and out["schedule"] and canon_objective(out) != out["objective"]:
+            ctx.count("js_objective", "float rounding of a makespan > 2^53")
+        bad = oracle(case, out) or meta
         if bad:
-            small = shrink(case, _fails) if len(ctx.violations) < 3 else case
-            sout = run_impl(small)
-            ctx.violation(f"solve_job_shop: {oracle(small, sout) or bad}",
-                          {"kind": "js", **small, "impl": {k: v for k, v in sout.items() if k != "draws"}})
+            if meta and not oracle(case, out):
+                ctx.violation(f"solve_job_shop: {meta}", {"kind": "js", **{k: v for k, v in case.items() if k != "base"}, "base": case["base"]})
+            else:
+                report(case, bad)
         if nontrivial(case):
-            ctx.nontriv(canon(case))
-        if idx >= n_corpus:
+            ctx.nontriv(canon({k: v for k, v in case.items() if k not in ("expect", "base")}))
+        if idx >= n_corpus and not case.get("nocoq"):
             ctx.sample({"kind": "js", **case, "impl": {k: v for k, v in out.items() if k != "draws"}}, 3)
-        if out["kind"] == "hang":
+        if out["kind"] == "hang" or not coq_affordable(case):
             continue
         coq_cases.append(c_case(case, out))
         metas.append((case, out))
@@ -371,40 +578,50 @@ def run_js(ctx: Ctx):
             ctx.violation("solve_job_shop output rejected by the Coq checker spec_check (sound w.r.t. js_spec) although the Python oracle accepts it",
                           {"kind": "js", **case, "impl": {k: v for k, v in out.items() if k != "draws"}, "lemma": "Cases/C18/js_spec_*.v corr"}, no_input=True)
 
-    # model and implementation disagree (or a proof broke) and no violating input so far: search harder
-    if (disagree or ctx.broken) and not any(not v["no_input"] for v in ctx.violations):
-        found = False
-        pool = [gen_case(ctx.rng, True) for _ in range(20000)]
-        for case, _o in disagree[:20]:  # neighbours of the disagreeing inputs
-            for _ in range(100):
-                c = json.loads(json.dumps(case))
-                c["seed"] = ctx.rng.randrange(1000)
-                c["max_iter"] = ctx.rng.choice([0, 1, 5, 30])
-                c["rule"] = ctx.rng.choice(RULES) if ctx.rng.random() < 0.5 else c["rule"]
-                pool.append(c)
-        outs = pmap(run_impl, pool)
-        for case, out in zip(pool, outs):
-            bad = oracle(case, out)
-            if bad:
-                small = shrink(case, _fails)
-                sout = run_impl(small)
-                ctx.violation(f"solve_job_shop: {oracle(small, sout) or bad}",
-                              {"kind": "js", **small, "impl": {k: v for k, v in sout.items() if k != "draws"}})
-                found = True
+    # model (or reference port) and implementation disagree, or a proof broke, and no violating input so far: search harder
+    if (disagree or port_disagree or ctx.broken) and not any(not v["no_input"] for v in ctx.violations):
+        found_bad = False
+        near = [c for c, _ in disagree[:20]] + [c for c, _ in port_disagree[:20]]
+        near = [{k: v for k, v in c.items() if k in ("jobs", "rule", "seed", "local_search", "max_iter", "cb_k", "interval")} for c in near
+                if c.get("seed") is not None and sum(len(j) for j in c["jobs"]) <= EV.MAX_OPS and input_valid(c) and c["jobs"]]
+        for c in near:
+            c["cb_k"], c["interval"] = None, 0
+        _f, verdicts2, st2 = EV.event_search(rng, 60000, judge=judge_event_case, seeds=near + seeds)
+        ctx.evaluations += st2["spent"]
+        for case, v in verdicts2:
+            if "bad" in v:
+                report(case, v["bad"])
+                found_bad = True
                 break
-        if not found:
+        if not found_bad:
+            pool = [gen_case(rng, True) for _ in range(20000)]
+            outs = pmap(run_impl, pool)
+            for case, out in zip(pool, outs):
+                bad = oracle(case, out)
+                if bad:
+                    report(case, bad)
+                    found_bad = True
+                    break
+        if not found_bad:
             for case, out in disagree[:1]:
                 model = ctx.coq_eval("js_show", IMPORTS, f"run_case {c_case(case, out)}")
                 ctx.violation("correspondence lemma js_corr: model SV.C18.JobShop.solve and solve_job_shop differ "
                               "(observable: schedule, objective, status, number of random draws)",
                               {"kind": "js", **case, "impl": out, "model": model[-1500:], "lemma": "Cases/C18/js_corr_*.v corr"}, no_input=True)
+            if not disagree:
+                for case, v in port_disagree[:1]:
+                    ctx.violation("reference port harness/props/jobshop_events.ref_run (a transliteration of the modelled algorithm) and "
+                                  "solve_job_shop differ (observable: schedule, objective)", {"kind": "js", **case, **v}, no_input=True)
 
     ctx.notes += [
         "job shop: Random is replaced in solvor.job_shop's namespace by a recording subclass; rng.choice / rng.randrange answers are the model's oracle list (the model is not a model of the Mersenne twister)",
-        "job shop: durations and machines are Python ints (exact); float durations are outside the generated inputs",
+        "job shop: durations and machines are Python ints of any magnitude (exact, = Z); integer-valued floats are accepted when the returned times are integral; dyadic halves are doubled back (exact) and judged as the integer case",
+        "job shop: Result.objective is a float by the API; when the makespan exceeds 2^53 the oracle requires the correctly rounded float and the Coq side is given the exact latest end time",
         "job shop: the model represents _rebuild_schedule's `scheduled` set by the next_op vector (the set is prefix-closed per job)",
         "job shop: on_progress is modelled as a total function iteration -> bool; the harness uses threshold call-backs",
         "job shop oracle: invalid inputs (empty job, negative machine/duration, unknown rule) may raise ValueError; any other exception or a hang is a violation",
+        "job shop: instances with > 40 operations or machine numbers > 320 (families S:*) are judged by the Python oracle and their by-construction answers only (no vm_compute)",
+        "job shop: the event-directed search is steered by an instrumented reference port (jobshop_events.ref_run); it is not an oracle, its agreement with the implementation is checked on every candidate",
     ]
 
 
